@@ -14,8 +14,9 @@ Fixpoint hx (s : string) : bytes :=
   | _ => []
   end.
 
-(** the test file: byte i is (i * 7 + 3) mod 251 *)
-Definition gen_content (n : nat) : bytes := map (fun i => N.modulo (N.of_nat i * 7 + 3) 251) (seq 0 n).
+(** the test file: byte i of variant v is (i * 7 + 3 + v) mod 251 *)
+Definition gen_content_v (n : nat) (v : N) : bytes := map (fun i => N.modulo (N.of_nat i * 7 + 3 + v) 251) (seq 0 n).
+Definition gen_content (n : nat) : bytes := gen_content_v n 0.
 
 Definition cksum_with (m i : N) (b : bytes) : N := fold_left (fun a c => N.modulo (a * m + c) 4294967296) b i.
 Definition digest (b : bytes) : string :=
@@ -32,3 +33,9 @@ Definition show_resp (r : resp) : string :=
 Definition run_show (c : nat * bool * option bytes) : string :=
   let '(n, hd, range) := c in
   show_resp (serve (gen_content n) w_ctype w_boundary hd range).
+
+(** a history = several requests against the same File object, the file being rewritten (size, variant) before each:
+    every response is a function of the file's content at the time of the request *)
+Definition run_seq (l : list (nat * N * bool * option bytes)) : string :=
+  String.concat ";;" (map (fun c => let '(n, v, hd, range) := c in
+                                    show_resp (serve (gen_content_v n v) w_ctype w_boundary hd range)) l).
